@@ -13,7 +13,8 @@ use serde::{Deserialize, Serialize};
 pub struct BigCase {
     /// 0 chain, 1 layered (fan <= 3), 2 fan-in, 3 fan-out, 4 chain with side inputs,
     /// 5 dense layers (root, then layers of `width` jobs, consecutive layers fully connected),
-    /// 6 two-root fan-out (an Always job and an Ephemeral/Output job, every other job consumes both)
+    /// 6 two-root fan-out (an Always job and an Ephemeral/Output job, every other job consumes both),
+    /// 7 a needed Ephemeral (it feeds an Output) with a long tail of Ephemerals nobody needs hanging off it
     pub shape: u8,
     pub n: usize,
     pub width: usize,
@@ -32,7 +33,7 @@ pub struct BigCase {
     pub outnames: bool,
 }
 
-pub const SHAPES: [&str; 7] = ["chain", "layered", "fan-in", "fan-out", "chain+side-inputs", "dense-layers", "two-root-fan-out"];
+pub const SHAPES: [&str; 8] = ["chain", "layered", "fan-in", "fan-out", "chain+side-inputs", "dense-layers", "two-root-fan-out", "needed-ephemeral-with-dangling-tail"];
 pub const CASCADES: [&str; 6] = ["first-build", "up-to-date-rerun", "invalidate-first", "invalidate-last", "fail-root", "abort-midway+resume"];
 
 fn log_size(b1: u8, b2: u8, lo: usize, hi: usize) -> usize {
@@ -44,11 +45,12 @@ fn log_size(b1: u8, b2: u8, lo: usize, hi: usize) -> usize {
 
 pub fn decode_big(data: &[u8], max_n: usize) -> BigCase {
     let mut s = Src::new(data);
-    let shape = s.below(7) as u8;
+    let shape = s.below(8) as u8;
     let (b1, b2) = (s.u8(), s.u8());
     let cap = match shape {
         2 => max_n.min(6000), // the engine is quadratic in the fan-in of one job
         6 => max_n.min(8000), // ... and in the fan-out of an Ephemeral
+        7 => max_n.min(12000), // pruning a dangling tail is quadratic in its length
         5 => max_n.min(1500), // edges grow with width^2
         _ => max_n,
     };
@@ -81,6 +83,14 @@ pub fn decode_big(data: &[u8], max_n: usize) -> BigCase {
 }
 
 fn kind_at(c: &BigCase, i: usize, is_sink: bool, layer: usize) -> Kind {
+    if c.shape == 7 {
+        // root (Always or Output by pattern), the needed Ephemeral, its Output consumer, then the tail
+        return match i {
+            0 => if c.pattern % 2 == 0 { Kind::Always } else { Kind::Output },
+            2 => Kind::Output,
+            _ => Kind::Ephemeral,
+        };
+    }
     if c.shape == 6 && i < 2 {
         // many jobs invalidated (or not) in one round by the Always root, all needing the second root
         return if i == 0 {
@@ -200,6 +210,15 @@ pub fn build_big(c: &BigCase) -> Scenario {
                     deps.push((1, 1));
                 }
                 is_sink = i >= 2;
+            }
+            7 => {
+                match i {
+                    0 => {}
+                    1 | 2 => deps.push((i - 1, 1)),
+                    3 => deps.push((1, 1)),
+                    _ => deps.push((i - 1, 1)),
+                }
+                is_sink = i == 2 || i == n - 1;
             }
             5 => {
                 if layer == 1 {
@@ -357,7 +376,7 @@ pub fn longest_ephemeral_run(c: &BigCase) -> usize {
 pub fn describe_big(c: &BigCase) -> String {
     format!(
         "{} n={} width={} kinds=pattern{}(period {}) cascade={} coarse_every={} stamps={} consumed-only={} output-names={}",
-        SHAPES[c.shape as usize % 7], c.n, c.width, c.pattern, c.period, CASCADES[c.cascade as usize % 6], c.coarse_every, c.stamps, c.consumed, c.outnames
+        SHAPES[c.shape as usize % 8], c.n, c.width, c.pattern, c.period, CASCADES[c.cascade as usize % 6], c.coarse_every, c.stamps, c.consumed, c.outnames
     )
 }
 
